@@ -42,6 +42,15 @@ class BindGen:
         self.n += 1
         return "%s%d" % (prefix, self.n)
 
+    def alias(self, bound: Dict[str, str]) -> str:
+        """a local alias name: often one of a few shared names, so that the same local name is bound in
+        several scopes of one module (module and class bodies) to different objects — each still once per scope"""
+        if self.rng.random() < 0.45:
+            cands = [a for a in ("sh1", "sh2", "sh3") if a not in bound]
+            if cands:
+                return self.rng.choice(cands)
+        return self.fresh("al")
+
     def layout(self) -> List[Tuple[str, bool, Optional[str]]]:
         rng = self.rng
         out: List[Tuple[str, bool, Optional[str]]] = []
@@ -107,18 +116,18 @@ class BindGen:
                     out.append(indent + "import " + t.q)
                     self.bind(m, scope, top, "import", out, bound)
             elif f == "import_as":
-                al = self.fresh("al")
+                al = self.alias(bound)
                 out.append(indent + "import %s as %s" % (t.q, al))
                 self.bind(m, scope, al, "import_as", out, bound)
             elif f in ("from", "from_as") and defs:
                 n = rng.choice(defs)
-                al = n if f == "from" else self.fresh("al")
+                al = n if f == "from" else self.alias(bound)
                 if al not in bound:
                     out.append(indent + "from %s import %s%s" % (t.q, n, "" if al == n else " as " + al))
                     self.bind(m, scope, al, "from_definer" if n in t.classes + t.funcs else "from_definer_var", out, bound)
             elif f in ("from_mod", "from_mod_as") and t.parent is not None:
                 n = t.q.rsplit(".", 1)[1]
-                al = n if f == "from_mod" else self.fresh("al")
+                al = n if f == "from_mod" else self.alias(bound)
                 if al not in bound:
                     out.append(indent + "from %s import %s%s" % (t.parent, n, "" if al == n else " as " + al))
                     self.bind(m, scope, al, "from_pkg_submodule", out, bound)
@@ -138,7 +147,7 @@ class BindGen:
                         rest = t.q[len(b) + 1:]
                         if defs and rng.random() < 0.6:
                             n = rng.choice(defs)
-                            al = n if rng.random() < 0.6 else self.fresh("al")
+                            al = n if rng.random() < 0.6 else self.alias(bound)
                             if al not in bound:
                                 out.append(indent + "from %s%s import %s%s" % ("." * level, rest, n, "" if al == n else " as " + al))
                                 self.bind(m, scope, al, "from_definer_relative" if n in t.classes + t.funcs else "from_definer_var", out, bound)
@@ -165,8 +174,8 @@ class BindGen:
         out.append(ind + "'''ID:%s'''" % name)
         cscope = scope + "." + name
         cb: Dict[str, str] = {}
-        if self.class_imports and rng.random() < 0.25:
-            self.imports(m, cscope, done, mods, cb, ind, out, 1)
+        if self.class_imports and rng.random() < 0.4:
+            self.imports(m, cscope, done, mods, cb, ind, out, rng.randint(1, 2))
         for _ in range(rng.randint(0, 3)):
             k = rng.choice(["meth", "var", "nested"])
             if k == "meth":
